@@ -100,6 +100,13 @@ def record(run):
     # tolerances would bite) and a large one; integer element types use integer factors
     dtn = run.get("dtype", "float64")
     scale = run.get("scale")
+    if dtn.startswith("uint"):
+        # unsigned storage (callable metrics only: libdist has no unsigned kernels): the largest power of two that
+        # keeps every coordinate inside the type, so that the top coordinates lie above the sign bit of the same width
+        top = max([int(abs(v)) for p_ in pts for v in p_] + [1])
+        scale = 1.0
+        while top * scale * 2 <= np.iinfo(dtn).max:
+            scale *= 2
     if scale is None:
         rot = (sum(int(abs(v)) for p_ in pts for v in p_) + 2 * n + run["k"] + run.get("sweeps", 0)) % 3
         # powers of two: every floating-point operation of the run then scales exactly, so the scaled run makes
